@@ -202,7 +202,7 @@ def report(prop, mod, args, seed, done, t0, replay=False):
             crash_ok = getattr(mod, 'CRASH_IS_VIOLATION', True)
             if crashed and crash_ok:
                 # interpreter died inside the code under test
-                d = os.path.join(VERIF, 'replays', prop)
+                d = os.path.join(os.environ.get('VERIF_REPLAY_DIR') or os.path.join(VERIF, 'replays'), prop)
                 os.makedirs(d, exist_ok=True)
                 path = os.path.join(d, 'crash-%s-%s.json' % (cfg['name'],
                                                              cfg['seed']))
@@ -256,7 +256,7 @@ def report(prop, mod, args, seed, done, t0, replay=False):
             except Exception:
                 pass
         for k, (sig, msg, case, cfg) in enumerate(cross(extras) or ()):
-            d = os.path.join(VERIF, 'replays', prop)
+            d = os.path.join(os.environ.get('VERIF_REPLAY_DIR') or os.path.join(VERIF, 'replays'), prop)
             os.makedirs(d, exist_ok=True)
             path = os.path.join(d, 'cross-%d-%s.json' % (k, seed))
             with open(path, 'w') as f:
